@@ -253,6 +253,8 @@ type episodeObs struct {
 	beforeP2 simdb.Snapshot // state after phase one (and the foreign writer), before phase two
 	jP2      int            // journal length when beforeP2 was taken
 	foreign  []ATStmt
+	// fault counters of the simulator when the episode began
+	faults0 map[string]int
 	// app-table snapshots after each repeated delivery (C10)
 	redelivered []simdb.Snapshot
 }
@@ -281,6 +283,10 @@ func (r *atRun) runEpisode(idx int, ep *ATEpisode) *episodeObs {
 			return sim.Now()-t0 > 60*time.Second || (tc.SessionIsTM(int(ns.ID())) && len(tc.SessionResources(int(ns.ID()))) > 0 && sim.Enabled() == 0)
 		})
 		sim.Probe("at-session-reopened")
+	}
+	o.faults0 = map[string]int{}
+	for k, v := range sim.Faults {
+		o.faults0[k] = v
 	}
 	o.s0 = w.Srv.Snapshot()
 	o.jstart = w.Srv.JournalLen()
